@@ -16,6 +16,7 @@ import (
 	"github.com/ErdemOzgen/blackdagger/internal/persistence"
 	"github.com/ErdemOzgen/blackdagger/internal/persistence/model"
 	"github.com/ErdemOzgen/blackdagger/internal/sock"
+	"github.com/ErdemOzgen/blackdagger/internal/util"
 )
 
 // New creates a new Client instance.
@@ -85,6 +86,13 @@ func (e *client) Rename(oldID, newID string) error {
 		return err
 	}
 	newDAG, err := dagStore.Find(newID)
+	if err != nil {
+		// The store files a DAG under <name>.yaml whatever extension the
+		// new name was typed with (x.yml is stored as x.yaml): look the
+		// renamed DAG up the way it was stored, or its history stays behind
+		// under the old name although the definition has moved.
+		newDAG, err = dagStore.Find(util.AddYamlExtension(newID))
+	}
 	if err != nil {
 		return err
 	}
